@@ -152,6 +152,8 @@ class Effects:
                     from engine.anl.locks import lock_class_of_arg
                     cls = lock_class_of_arg(body, c.args[0])
                     tg = self.names.get(cls)
+                if tg and last.startswith("try_"):
+                    out.add("trylock:%s" % tg)    # an acquisition that can fail: whoever calls it has a branch for "busy", which is a new behaviour under contention
                 if tg and "read" not in last:
                     out.add("lockW:%s" % tg)      # shared (read) acquisitions change nothing and are not effects
                 continue
@@ -384,7 +386,8 @@ PROPERTY_REGIONS = {
     "C11": ((SS + "write_frame", SS + "write_with_padding", SS + "start_client", SS + "open_stream", SS + "write_control_frame"), (), (SS + "write_with_padding", SS + "disable_buffering", SS + "start_client")),
     "C12": (("client::session_pool::", "<client::session_pool::"), (), ("client::session_pool::SessionPool::get_idle_session", "client::session_pool::SessionPool::add_idle_session", SS + "close")),
     "C13": (("client::client::Client::create_stream", "client::client::Client::create_new_session", "client::client::Client::create_proxy_stream", "client::session_pool::SessionPool::get_idle_session",
-             "client::session_pool::SessionPool::add_idle_session"), (), ("client::session_pool::SessionPool::get_idle_session", "client::session_pool::SessionPool::add_idle_session", SS + "close",
+             "client::session_pool::SessionPool::add_idle_session", "client::session_pool::SessionPool::cleanup_expired", "client::session_pool::SessionPool::start_cleanup_task"), (),
+            ("client::session_pool::SessionPool::get_idle_session", "client::session_pool::SessionPool::add_idle_session", SS + "close",
                                                                          "client::client::Client::create_new_session")),
     "C14": ((SS + "start_client", SS + "close", SS + "recv_loop", SS + "process_stream_data"), ("HeartRequest", "HeartResponse"), (SS + "close",)),
     "C15": (("client::udp_client::", "server::udp_proxy::"), (), ()),
